@@ -9,6 +9,7 @@ import (
 	"go/ast"
 	"go/token"
 	"go/types"
+	"os"
 	"path/filepath"
 	"sort"
 	"strings"
@@ -34,6 +35,18 @@ type Prog struct {
 	all           []*Func
 	implCache     map[string][]string
 	methodsByName map[string][]*Func
+	// Overlay holds in-memory replacements of source files (witness mutants);
+	// rules that read a file of the repository that is not part of a loaded
+	// package go through ReadFile so that they see them.
+	Overlay map[string][]byte
+}
+
+// ReadFile reads a file of the analysed tree, honouring the overlay.
+func (p *Prog) ReadFile(path string) ([]byte, error) {
+	if b, ok := p.Overlay[path]; ok {
+		return b, nil
+	}
+	return os.ReadFile(path)
 }
 
 // Func is a source function: a declaration or a function literal.
